@@ -265,6 +265,7 @@ type session struct {
 	aborted bool
 	knownInBlock string
 	seenContracts []int
+	staged  map[int]bool // contracts whose storage was staged by a successful tx of the current block
 	ts      int64
 	node    *chain.ChainService // what the real newBlockExecutor needs (shim VerifC01Node)
 	vnode   *chain.ChainService // the same with BlockValidator.verbose (verify mode)
@@ -808,6 +809,29 @@ func (s *session) expectLeak(pre *snap, x *txSpec, feeUsed *big.Int) []*snap {
 	return []*snap{e, e2}
 }
 
+// expectLateWrite: the one other known way an ERROR receipt leaves more than fee and nonce (known finding
+// toplevel-vm-error-keeps-staged-storage-writes): a Lua error after top-level variable writes ("vmlate") on a
+// contract whose storage was staged by an earlier transaction of the same block - the handle the VM wrote
+// through is the block's cached storage. Returns the admissible state (fee + nonce + exactly the script's
+// storage writes on the called contract), or nil if the transaction does not have that shape.
+func (s *session) expectLateWrite(pre *snap, x *txSpec, feeUsed *big.Int) *snap {
+	if x.sc == nil || x.sc.err != "vmlate" || x.rcpt < 0 || !s.staged[x.rcpt] {
+		return nil
+	}
+	e := expectFailed(pre, x, feeUsed)
+	rc := x.rcpt
+	for _, kv := range x.sc.sets {
+		if e.stor[rc] == nil {
+			e.stor[rc] = map[int]int{}
+		}
+		e.stor[rc][kv[0]] = kv[1]
+	}
+	for _, k := range x.sc.dels {
+		delete(e.stor[rc], k)
+	}
+	return e
+}
+
 // expectSuccess: the intended effects of a successful transaction, written without account copies.
 func (s *session) expectSuccess(pre *snap, x *txSpec, feeUsed *big.Int, blockNo uint64) *snap {
 	e := pre.clone()
@@ -984,8 +1008,14 @@ func (s *session) runTx(bs *state.BlockState, exec chain.TxExecFn, bi *types.Blo
 						leakShape = true
 					}
 				}
+				if lw := s.expectLateWrite(pre, x, feeUsed); lw != nil && post.equalState(lw) {
+					leakShape = true
+					if !x.outside() {
+						known = "toplevel-vm-error-keeps-staged-storage-writes"
+					}
+				}
 				if !x.outside() {
-					if leakShape {
+					if leakShape && known == "" {
 						known = "vm-fee-check-after-commit"
 					}
 					s.fail("C03", "a transaction with an ERROR receipt did not change exactly fee and nonce", known, line, "pre    "+pre.dump(z), "post   "+post.dump(z), "expect "+exp.dump(z))
@@ -995,6 +1025,15 @@ func (s *session) runTx(bs *state.BlockState, exec chain.TxExecFn, bi *types.Blo
 			impl = fmt.Sprintf("applied %s fee=%s fd=%d to=%d", rc.Status, feeUsed, b2i(rc.FeeDelegation), to)
 			s.run.Count("out-" + rc.Status)
 			exp := s.expectSuccess(pre, x, feeUsed, bi.No)
+			if x.typ != types.TxType_GOVERNANCE && x.typ != types.TxType_MULTICALL {
+				rcv := x.rcpt
+				if rcv < 0 {
+					rcv = x.newAddr
+				}
+				if x.rcpt < 0 || x.typ == types.TxType_REDEPLOY || pre.acct(rcv).code {
+					s.staged[rcv] = true // Execute ran the VM and StageContractState put the storage into the block's cache
+				}
+			}
 			if !post.equalState(exp) && x.outside() {
 				s.run.Count(map[bool]string{true: "sig-domain-effects", false: "stub-domain-effects"}[!x.admissible])
 			} else if !post.equalState(exp) {
@@ -1069,6 +1108,7 @@ func (s *session) block(gen func(b *blockGen), coinbase int, trials bool) {
 	}
 	s.reloadGlobals()
 	s.knownInBlock = ""
+	s.staged = map[int]bool{}
 	var cb []byte
 	cbw := "-"
 	if coinbase >= 0 {
@@ -1243,6 +1283,7 @@ func (s *session) probeBlock(gen func(b *blockGen)) {
 	}
 	s.reloadGlobals()
 	s.knownInBlock = ""
+	s.staged = map[int]bool{}
 	s.ts += 1000000000
 	bi := &types.BlockHeaderInfo{No: s.blockNo, Ts: s.ts, PrevBlockHash: s.prev, ChainId: types.MakeChainId(s.chainID, s.cfg.fv), ForkVersion: s.cfg.fv}
 	bs := s.newBS(bi)
@@ -1511,7 +1552,7 @@ func (b *blockGen) randNonce(u int) (uint64, string) {
 func (b *blockGen) genScript(x *txSpec, isFD bool, contractBal *big.Int) *script {
 	r := b.s.rng
 	sc := &script{fee: new(big.Int), err: "ok"}
-	switch r.Intn(13) {
+	switch r.Intn(15) {
 	case 0:
 		sc.err = "vm"
 	case 1:
@@ -1520,6 +1561,10 @@ func (b *blockGen) genScript(x *txSpec, isFD bool, contractBal *big.Int) *script
 		sc.err = "negfee"
 	case 3:
 		sc.err = "timeout"
+	case 4, 5:
+		// a Lua error after top-level variable writes: on a contract staged earlier in the block the writes
+		// survive the ERROR receipt (known finding), on any other contract they must vanish
+		sc.err = "vmlate"
 	}
 	// "system" and "timeout" strike after the script's transfers and storage writes have been made
 	writes := sc.err == "ok" || sc.err == "system" || sc.err == "timeout"
